@@ -2,6 +2,7 @@ package rules
 
 import (
 	"fmt"
+	"go/token"
 	"strings"
 
 	"golang.org/x/tools/go/ssa"
@@ -148,8 +149,108 @@ func c13(w *core.World, r *core.Report) {
 		}
 	}
 
+	// ---- NOTIFICATION-COMPLETE
+	r.Rule("NOTIFICATION-COMPLETE", 2, "Converter.ConvertNotificationTypedValues looks at every update of the notification: no success return (nil error) is reachable from inside the loop over n.GetUpdate() without leaving the loop through its exit, and the converted result of each update (also of an expanded JSON blob) is appended to the returned notification. Decides: one update of a device message cannot make the others disappear.")
+	if conv := w.Func("pkg/utils", "Converter", "ConvertNotificationTypedValues"); conv != nil {
+		var head *ssa.If
+		for _, iff := range core.Ifs(conv) {
+			if bo, ok := iff.Cond.(*ssa.BinOp); ok && bo.Op == token.LSS {
+				if c, ok := bo.Y.(*ssa.Call); ok {
+					if bi, ok := c.Call.Value.(*ssa.Builtin); ok && bi.Name() == "len" {
+						for _, oc := range core.OriginCalls(c.Call.Args[0]) {
+							if core.CalleeIs(oc, "github.com/sdcio/sdc-protos/sdcpb.Notification.GetUpdate") && head == nil {
+								head = iff
+							}
+						}
+					}
+				}
+			}
+		}
+		if head == nil {
+			r.Undecided("NOTIFICATION-COMPLETE", core.Site(conv, "loop over the updates"), w.Pos(conv.Pos()), "no index loop over n.GetUpdate()")
+		} else {
+			body := head.Block().Succs[0]
+			for i, ret := range core.Returns(conv) {
+				ev := errorOperand(ret)
+				if ev == nil || !core.IsNilConst(ev) {
+					// a return whose error may be non-nil is a failure exit... unless it forwards a callee's (result, err) pair
+					if ev != nil {
+						isPair := false
+						for _, o := range core.Origins(ev) {
+							if c, ok := o.(*ssa.Call); ok && core.CalleeIs(c, "utils.Converter.ConvertNotificationTypedValues") && core.HasOrigin(core.ReturnValues(ret)[0], c) {
+								isPair = true
+							}
+						}
+						if !isPair {
+							continue
+						}
+					} else {
+						continue
+					}
+				}
+				early, _ := core.PathQuery{Avoid: func(in ssa.Instruction) bool { return in == ssa.Instruction(head) }}.Reaches(body, 0, func(in ssa.Instruction) bool { return in == ssa.Instruction(ret) })
+				r.Check(!early, "NOTIFICATION-COMPLETE", core.Site(conv, "success return#%d after the loop", i), w.InstrPos(ret), "a return from inside the loop over the updates hands back a partial notification: the updates before it are discarded and the ones after it are never looked at")
+			}
+			// the recursion's result is appended
+			for _, c := range core.CallsTo(conv, "utils.Converter.ConvertNotificationTypedValues") {
+				used := false
+				for _, b := range conv.Blocks {
+					for _, in := range b.Instrs {
+						if ap, ok := in.(*ssa.Call); ok {
+							if bi, isB := ap.Call.Value.(*ssa.Builtin); isB && bi.Name() == "append" && len(ap.Call.Args) == 2 {
+								sl := core.DataSlice(conv, []ssa.Value{ap.Call.Args[1]})
+								if sl.HasValue(c.Value()) {
+									used = true
+								}
+							}
+						}
+					}
+				}
+				r.Check(used, "NOTIFICATION-COMPLETE", core.Site(conv, "expansion appended to the result"), w.InstrPos(c), "the converted expansion of a JSON blob must be added to the notification that is returned")
+			}
+		}
+	}
+
+	// ---- EVERY-ENTRY-WRITTEN
+	r.Rule("EVERY-ENTRY-WRITTEN", 2, "in storeSyncMsg whether a delete / update of a notification is written to the cache depends on failures only: every path from the start of a loop iteration to the next iteration passes the Modify call or an err != nil edge. A memo of 'already written' values, a filter on the value or any other skip makes the mirror miss what the device sent (e.g. the same value again after an ancestor was deleted).")
+	for i, m := range core.CallsTo(store, kModify) {
+		// loop header: the dominating branch on 'index < len(slice)'
+		var head *ssa.If
+		for _, g := range core.GuardsOf(m) {
+			if bo, ok := g.If.Cond.(*ssa.BinOp); ok && bo.Op == token.LSS && g.CondTrue() {
+				if c, ok := bo.Y.(*ssa.Call); ok {
+					if bi, ok := c.Call.Value.(*ssa.Builtin); ok && bi.Name() == "len" {
+						head = g.If
+					}
+				}
+			}
+		}
+		if head == nil {
+			r.Undecided("EVERY-ENTRY-WRITTEN", core.Site(store, "Modify#%d loop", i), w.InstrPos(m), "the Modify call is not inside an index loop over the notification's entries")
+			continue
+		}
+		errEdge := func(from *ssa.BasicBlock, succ int) bool {
+			iff, ok := from.Instrs[len(from.Instrs)-1].(*ssa.If)
+			if !ok {
+				return false
+			}
+			x, nilOnTrue, isNil := core.NilTest(iff.Cond)
+			if !isNil || x == nil || !isErrorType(x.Type()) {
+				return false
+			}
+			// succ 0 = condition true
+			return (succ == 0) != nilOnTrue
+		}
+		body := head.Block().Succs[0]
+		skip, tr := core.PathQuery{
+			Avoid:    func(in ssa.Instruction) bool { return in == ssa.Instruction(m) },
+			SkipEdge: errEdge,
+		}.Reaches(body, 0, func(in ssa.Instruction) bool { return in == ssa.Instruction(head) })
+		r.Check(!skip, "EVERY-ENTRY-WRITTEN", core.Site(store, "Modify#%d depends on failures only", i), w.InstrPos(m), fmt.Sprintf("an iteration can reach the next one without writing the entry and without a failure (blocks %v)", tr))
+	}
+
 	// ---- PRUNE-BRACKET
-	r.Rule("PRUNE-BRACKET", 3, "a re-sync cycle is bracketed: CreatePruneID executes only on the Start outcome, ApplyPrune only on 'End && pruneID != \"\"', the id is reset after a successful ApplyPrune, and neither is called from the per-notification worker.")
+	r.Rule("PRUNE-BRACKET", 4, "a re-sync cycle is bracketed: CreatePruneID executes only on the Start outcome, ApplyPrune only on 'End && pruneID != \"\"', the id is reset after a successful ApplyPrune, and neither is called from the per-notification worker.")
 	for _, c := range core.CallsTo(syncFn, "cache.Client.CreatePruneID") {
 		ok := false
 		for _, g := range core.GuardsOf(c) {
@@ -174,6 +275,39 @@ func c13(w *core.World, r *core.Report) {
 			}
 		}
 		r.Check(okEnd && okID, "PRUNE-BRACKET", core.Site(syncFn, "ApplyPrune only on End with an open cycle"), w.InstrPos(c), "paths absent from a COMPLETED re-sync are pruned, nothing else")
+		// ... and on nothing else: every completed cycle is pruned, whatever it delivered (an empty device config
+		// is a completed cycle too). Other guards may only be the select of the main loop and error tests.
+		extra := ""
+		for _, g := range core.GuardsOf(c) {
+			cond, _ := core.StripNot(g.If.Cond)
+			if f := core.FieldOf(cond); f == "datastore/target.SyncUpdate.End" || f == "datastore/target.SyncUpdate.Start" {
+				continue
+			}
+			if a, b, _, isEq := core.EqTest(cond); isEq {
+				okc := false
+				for _, x := range []ssa.Value{a, b} {
+					if s, isC := core.ConstString(x); isC && s == "" {
+						okc = true // pruneID
+					}
+					if core.IsNilConst(x) {
+						okc = true // error / nil tests
+					}
+					for _, o := range core.Origins(x) {
+						if _, isSel := o.(*ssa.Select); isSel {
+							okc = true // which select case fired
+						}
+					}
+				}
+				if okc {
+					continue
+				}
+			}
+			if x, _, isNil := core.NilTest(cond); isNil && x != nil {
+				continue
+			}
+			extra = cond.String() + " (" + cond.Name() + ")"
+		}
+		r.Check(extra == "", "PRUNE-BRACKET", core.Site(syncFn, "ApplyPrune on every completed cycle"), w.InstrPos(c), "the prune of a completed re-sync depends on a further condition: "+extra)
 	}
 	r.Check(len(core.CallsTo(store, "cache.Client.CreatePruneID", "cache.Client.ApplyPrune")) == 0, "PRUNE-BRACKET", core.Site(store, "no pruning in the worker"), w.Pos(store.Pos()), "pruning belongs to the ordered main loop")
 
@@ -287,6 +421,101 @@ func c14(w *core.World, r *core.Report) {
 				}
 			}
 		}
+	}
+
+	// ---- ALL-PATHS
+	r.Rule("ALL-PATHS", 4, "every requested path is read: the path list handed to each of the four handler calls in Datastore.Get is built by make + append in the loop over req.GetPath() and by nothing else (no function filters, de-duplicates or re-orders it); prefix tests on joined paths follow NO-PREFIX-ON-JOIN.")
+	{
+		n := 0
+		for _, c := range core.Calls(get) {
+			k := core.CalleeKey(c)
+			if !strings.HasPrefix(k, "datastore.Datastore.handleGetDataUpdates") {
+				continue
+			}
+			a := core.CallArgs(c)
+			if len(a) < 4 {
+				continue
+			}
+			n++
+			bad := ""
+			seen := map[ssa.Value]bool{}
+			var visit func(v ssa.Value)
+			visit = func(v ssa.Value) {
+				for _, o := range core.Origins(v) {
+					if seen[o] {
+						continue
+					}
+					seen[o] = true
+					switch x := o.(type) {
+					case *ssa.MakeSlice, *ssa.Const:
+					case *ssa.Slice:
+						visit(x.X)
+					case *ssa.Call:
+						if bi, ok := x.Call.Value.(*ssa.Builtin); ok && bi.Name() == "append" {
+							visit(x.Call.Args[0])
+						} else {
+							bad = core.CalleeKey(x)
+						}
+					default:
+						bad = o.String()
+					}
+				}
+			}
+			visit(a[3])
+			r.Check(bad == "", "ALL-PATHS", core.Site(get, "paths of %s", shortSrc(k)), w.InstrPos(c), "the list of paths to read passes through "+bad+": a requested path may be dropped")
+		}
+		if n == 0 {
+			r.Undecided("ALL-PATHS", core.Site(get, "handler calls"), w.Pos(get.Pos()), "no handler call found")
+		}
+	}
+	ruleNoPrefixOnJoin(w, r)
+
+	// ---- FRESH-MESSAGE
+	r.Rule("FRESH-MESSAGE", 3, "a response handed to the stream channel is not written afterwards: no handler truncates ('x[:0]') a slice variable that is also stored into a field of a message (sdcpb.Notification.Update, GetDataResponse.Notification): the next append would overwrite the backing array of a message the consumer has not serialised yet, so earlier messages show later leaves.")
+	for _, h := range append([]*ssa.Function{get}, hs...) {
+		fns := []*ssa.Function{h}
+		fns = append(fns, h.AnonFuncs...)
+		bad := ""
+		for _, f := range fns {
+			// variables (allocs / captured variables) whose value is stored into a message field
+			inMsg := map[ssa.Value]bool{}
+			addrOf := func(v ssa.Value) ssa.Value {
+				for _, o := range core.Origins(v) {
+					if u, ok := o.(*ssa.UnOp); ok && u.Op == token.MUL {
+						return u.X
+					}
+				}
+				return nil
+			}
+			for _, b := range f.Blocks {
+				for _, in := range b.Instrs {
+					st, ok := in.(*ssa.Store)
+					if !ok {
+						continue
+					}
+					if fk := core.FieldOf(st.Addr); strings.HasPrefix(fk, "github.com/sdcio/sdc-protos/sdcpb.") {
+						if a := addrOf(st.Val); a != nil {
+							inMsg[a] = true
+						}
+					}
+				}
+			}
+			for _, b := range f.Blocks {
+				for _, in := range b.Instrs {
+					sl, ok := in.(*ssa.Slice)
+					if !ok || sl.High == nil {
+						continue
+					}
+					if hi, isC := core.ConstInt(sl.High); !isC || hi != 0 {
+						continue
+					}
+					if a := addrOf(sl.X); a != nil && inMsg[a] {
+						bad = core.FuncKey(f) + " truncates " + a.Name()
+					}
+				}
+			}
+		}
+		r.Check(bad == "", "FRESH-MESSAGE", core.Site(h, "sent slices are not reused"), w.Pos(h.Pos()), "a slice that is part of a sent message is truncated and refilled: "+bad)
 	}
 
 	// ---- ENCODING-REJECT
@@ -534,7 +763,7 @@ func c15(w *core.World, r *core.Report) {
 	}
 
 	// ---- OPERANDS
-	r.Rule("OPERANDS", 2, "the comparisons behind the reports have the right operands: the test guarding NOT_APPLIED compares the ruling intent's value normalised by TypedValueToYANGType with the running value (upd.Value()); the test guarding OVERRULED compares the ruling intent's normalised value with the lower intent's normalised value (both from TypedValueToYANGType, of different entries); the reported values are those operands.")
+	r.Rule("OPERANDS", 3, "the comparisons behind the reports have the right operands: the test guarding NOT_APPLIED compares the ruling intent's value normalised by TypedValueToYANGType with the running value (upd.Value()); the test guarding OVERRULED compares the ruling intent's normalised value with the lower intent's normalised value (both from TypedValueToYANGType, of different entries); the reported values are those operands.")
 	for _, s := range sends {
 		if s.event != 3 || (s.reason != 2 && s.reason != 3) {
 			continue
@@ -584,7 +813,74 @@ func c15(w *core.World, r *core.Report) {
 			r.Check(ok, "OPERANDS", core.Site(run, "OVERRULED compares ruling intent with lower intent"), w.InstrPos(eq), "operands must be the normalised values of the ruling and of the lower-precedence intent (not the running value)")
 		}
 	}
+	// UNHANDLED is decided by a read of the intended store for that very path
+	for _, s := range sends {
+		if s.event != 3 || s.reason != 1 {
+			continue
+		}
+		ok, detail := false, "no 'len(<intents of the path>) == 0' guard"
+		for _, g := range core.GuardsOf(s.call) {
+			a, b, eqOnTrue, isEq := core.EqTest(g.If.Cond)
+			if !isEq || eqOnTrue != g.CondTrue() {
+				continue
+			}
+			for _, pair := range [][2]ssa.Value{{a, b}, {b, a}} {
+				z, isC := core.ConstInt(pair[1])
+				lc, isCall := pair[0].(*ssa.Call)
+				if !isC || z != 0 || !isCall {
+					continue
+				}
+				if bi, isB := lc.Call.Value.(*ssa.Builtin); !isB || bi.Name() != "len" {
+					continue
+				}
+				ok = true
+				if core.MayBeZeroValue(lc.Call.Args[0]) {
+					ok = false
+					detail = "on some path the tested list is never assigned (the read is skipped)"
+				}
+				for _, o := range core.Origins(lc.Call.Args[0]) {
+					oc, isCall := o.(*ssa.Call)
+					if !isCall || !core.CalleeIs(oc, "cache.Client.Read") {
+						ok = false
+						detail = "the tested list is not always the result of a read of the intended store: " + o.String()
+					}
+				}
+			}
+		}
+		r.Check(ok, "OPERANDS", core.Site(run, "UNHANDLED decided by a read of the intended store"), w.InstrPos(s.call), "a running path is unhandled iff the intended store holds nothing for it; "+detail)
+	}
 	ruleEqualLeaflist(w, r)
+
+	// ---- EQUAL-EXACT
+	r.Rule("EQUAL-EXACT", 1, "the value comparison behind NOT_APPLIED / OVERRULED is exact: no function reachable from utils.EqualTypedValues (static calls inside the repository) converts a value number with loss (int64 -> float64, narrowing, sign change; rule table shared with C12.LOSSY). Comparing decimal64 values as floats makes numbers that differ in the 17th digit equal, so a real deviation is not reported.")
+	if eq := w.Func("pkg/utils", "", "EqualTypedValues"); eq != nil {
+		setWordBits(w)
+		reach := w.CG().Reachable(func(e core.Edge) bool { return e.Kind != "static" }, eq)
+		n, nf := 0, 0
+		for f := range reach {
+			if f.Blocks == nil || f.Pkg == nil || !strings.HasPrefix(f.Pkg.Pkg.Path(), core.Module) {
+				continue
+			}
+			nf++
+			for _, b := range f.Blocks {
+				for _, in := range b.Instrs {
+					cv, ok := in.(*ssa.Convert)
+					if !ok {
+						continue
+					}
+					lossy, why := lossyConvert(cv.X.Type(), cv.Type())
+					if !lossy || numericValueSource(cv.X) == "" {
+						continue
+					}
+					n++
+					r.Viol("EQUAL-EXACT", core.Site(f, "convert %s -> %s", cv.X.Type(), cv.Type()), w.InstrPos(cv), "lossy conversion ("+why+") of a compared value")
+				}
+			}
+		}
+		if n == 0 {
+			r.OK("EQUAL-EXACT", core.Site(eq, "no lossy conversion in the comparison"), w.Pos(eq.Pos()), fmt.Sprintf("%d functions analysed", nf))
+		}
+	}
 
 	// ruling = lowest priority: the sort comparator orders by Priority ascending
 	r.Rule("RULING-FIRST", 1, "the intents of a path are sorted by ascending priority (ties by timestamp) before element [0] is treated as the ruling one.")
